@@ -717,8 +717,11 @@ def b_fmt_common(c, ctx, trait, an, cls):
                     else it.variants[0].fields[0].ty
         else:
             ts = pick_types(ctx, 3, cls)
-            if tys and ts[0] != VOID and set(free_names(" ".join(ts[1:]), g)) >= {p["n"] for p in g["params"] if p["k"] in ("lt", "ty")}:
+            if tys and ts[0] != VOID:
                 ts[0] = tys[0]          # the delegating variant holds a bare type parameter
+                need = {p["n"] for p in g["params"] if p["k"] in ("lt", "ty")}
+                if not need <= set(free_names(" ".join(ts), g)):
+                    ts[1 if ts[2] == VOID else 2] = uni(g)
             it = mk_enum(ctx, [("tuple", [ts[0]]), ("named", [ts[1], ts[2]]), ("unit", [])])
             v = it.variants[1]
             v.attrs.append("#[%s(%s)]" % (an, fmt_args_for(v.fields, spec, True)))
